@@ -307,12 +307,12 @@ func ledgerScenario(c *Ctx, mode string) {
 		uk := l.key(u)
 		other := userNames[rnd.Intn(len(userNames))]
 		ok_ := l.key(other)
-		kinds := []string{"transfer", "transfer", "transfer", "overdraft", "vote", "vote", "register", "topup", "unregister", "box", "boxfail", "payer", "payer-unsigned", "wrongkey", "setsigners", "ms-ok", "ms-dup", "ms-mall", "ms-short", "extrasig", "pricey", "zero", "tamper"}
+		kinds := []string{"transfer", "transfer", "transfer", "overdraft", "vote", "vote", "register", "topup", "unregister", "box", "boxfail", "payer", "payer-unsigned", "wrongkey", "setsigners", "ms-ok", "ms-dup", "ms-mall", "ms-short", "ms-ownkey", "extrasig", "pricey", "zero", "tamper"}
 		switch l.mode {
 		case "c11":
 			kinds = []string{"transfer", "transfer", "vote", "vote", "vote", "register", "topup", "unregister", "box", "payer"}
 		case "c06":
-			kinds = []string{"transfer", "payer", "payer-unsigned", "wrongkey", "setsigners", "ms-ok", "ms-dup", "ms-mall", "ms-short", "extrasig", "tamper", "box"}
+			kinds = []string{"transfer", "payer", "payer-unsigned", "wrongkey", "setsigners", "ms-ok", "ms-dup", "ms-mall", "ms-short", "ms-ownkey", "ms-ownkey", "extrasig", "tamper", "box"}
 		}
 		k := kinds[rnd.Intn(len(kinds))]
 		if contractBlock {
@@ -402,12 +402,20 @@ func ledgerScenario(c *Ctx, mode string) {
 				} else if rnd.Intn(4) == 0 && len(cands) > 0 {
 					stx = txVote(l.key(su), cands[rnd.Intn(len(cands))], TxOpt{Exp: exp(), Msg: u_("bv")})
 				} else {
-					stx = txTransfer(l.key(su), keyAddr(ok_), amountNear(nil), TxOpt{Exp: exp(), GasPrice: big.NewInt(int64(1+rnd.Intn(3)) * 1000000000), Msg: u_("b")})
+					sgl := uint64(0)
+					if rnd.Intn(2) == 0 {
+						sgl = uint64(22000 + rnd.Intn(70000))
+					}
+					stx = txTransfer(l.key(su), keyAddr(ok_), amountNear(nil), TxOpt{Exp: exp(), GasLimit: sgl, GasPrice: big.NewInt(int64(1+rnd.Intn(3)) * 1000000000), Msg: u_("b")})
 				}
 				subsTx = append(subsTx, stx)
 				subsL = append(subsL, mk(stx, "sub", su))
 			}
-			bt := mk(txBox(uk, subsTx, TxOpt{Exp: exp(), GasPrice: big.NewInt(int64(1+rnd.Intn(3)) * 1000000000), Msg: u_("box")}), k, u)
+			bgl := uint64(0)
+			if rnd.Intn(2) == 0 {
+				bgl = uint64(41000 + rnd.Intn(60000))
+			}
+			bt := mk(txBox(uk, subsTx, TxOpt{Exp: exp(), GasLimit: bgl, GasPrice: big.NewInt(int64(1+rnd.Intn(3)) * 1000000000), Msg: u_("box")}), k, u)
 			bt.subs = subsL
 			return bt
 		case "payer":
@@ -470,7 +478,7 @@ func ledgerScenario(c *Ctx, mode string) {
 				keys []string
 			}{u, keys}
 			return lt
-		case "ms-ok", "ms-dup", "ms-mall", "ms-short":
+		case "ms-ok", "ms-dup", "ms-mall", "ms-short", "ms-ownkey":
 			if len(msAccts) == 0 {
 				return mk(txTransfer(uk, keyAddr(ok_), lemo(1), TxOpt{Exp: exp(), Msg: u_("nm")}), "transfer", u)
 			}
@@ -492,6 +500,18 @@ func ledgerScenario(c *Ctx, mode string) {
 			case "ms-ok":
 				for _, r := range regs {
 					if nm := nameOf(r.Address); nm != "" {
+						stx, _ = types.MakeSigner().SignTx(stx, l.key(nm))
+						signed = append(signed, nm)
+					}
+				}
+			case "ms-ownkey":
+				// the account converted itself to multisig; its ORIGINAL key signs alone (first signature),
+				// optionally followed by the lightest registered signer
+				stx, _ = types.MakeSigner().SignTx(stx, ak)
+				signed = append(signed, acct)
+				if rnd.Intn(2) == 0 && len(regs) > 0 {
+					sort.Slice(regs, func(i, j int) bool { return regs[i].Weight < regs[j].Weight })
+					if nm := nameOf(regs[0].Address); nm != "" {
 						stx, _ = types.MakeSigner().SignTx(stx, l.key(nm))
 						signed = append(signed, nm)
 					}
@@ -561,8 +581,16 @@ func ledgerScenario(c *Ctx, mode string) {
 			panic(err)
 		}
 		miner := keyAddr(k)
+		// the block gas limit is the miner's choice: sometimes make it tight, so that the gas pool runs out
+		// in the middle of the candidate list (or in the middle of a box)
+		blockGas := uint64(105000000)
+		if !first && blk > 1 && rnd.Intn(4) == 0 {
+			blockGas = uint64(25000 + rnd.Intn(400000))
+			c.Count("block:tight-gas-limit")
+		}
+		modelGas := blockGas
 		if !contractBlock {
-			c.Op(fmt.Sprintf("block %d %d %d", parent.Height()+1, l.label(miner), parent.GasLimit()), "ok")
+			c.Op(fmt.Sprintf("block %d %d %d", parent.Height()+1, l.label(miner), modelGas), "ok")
 			for _, lt := range cand {
 				c.Op(l.txLine("tx", lt), "ok")
 				for _, st := range lt.subs {
@@ -575,7 +603,7 @@ func ledgerScenario(c *Ctx, mode string) {
 			before[a] = l.view(parent.Hash(), a).bal
 		}
 		res, pmsg := SafeMsg(func() string {
-			b, invalid, err := n.Build(parent, t, txs, nil)
+			b, invalid, err := n.BuildGas(parent, t, txs, nil, blockGas)
 			if err != nil {
 				return "builderr " + err.Error()
 			}
@@ -584,7 +612,7 @@ func ledgerScenario(c *Ctx, mode string) {
 				return "rejected"
 			}
 			if mode == "c01" {
-				l.rebuildChecks(b, txs, t, byHash)
+				l.rebuildChecks(b, txs, t, byHash, blockGas)
 				l.redoChecks(b)
 			}
 			var sel, inv []string
@@ -988,7 +1016,7 @@ func (l *ledger) crossNode(nb *Node, b *types.Block, cands types.Transactions, t
 }
 
 // rebuildChecks: must run while the block is still unconfirmed (its parent view is still addressable).
-func (l *ledger) rebuildChecks(b *types.Block, cands types.Transactions, t uint32, byHash map[common.Hash]*ledgerTx) {
+func (l *ledger) rebuildChecks(b *types.Block, cands types.Transactions, t uint32, byHash map[common.Hash]*ledgerTx, blockGas uint64) {
 	c := l.c
 	// the result does not depend on the discarded candidates, nor on map iteration order
 	parent := l.n.BC.GetBlockByHash(b.ParentHash())
@@ -1014,7 +1042,7 @@ func (l *ledger) rebuildChecks(b *types.Block, cands types.Transactions, t uint3
 				}
 			}
 		}
-		b2, _, err := l.n.Build(parent, t, only, nil)
+		b2, _, err := l.n.BuildGas(parent, t, only, nil, blockGas)
 		if err != nil {
 			c.Fail("c01/rebuild-error", err.Error(), nil)
 			continue
